@@ -284,3 +284,19 @@ def split_tuple_assign(stmt):
     if isinstance(stmt, ast.Assign) and len(stmt.targets) == 1:
         return [(stmt.targets[0], stmt.value)]
     return []
+
+
+def untuple(stmts):
+    """`a, b = x, y` -> `a = x; b = y` when no target occurs in a later value (plain parallel assignment, not a swap)"""
+    out = []
+    for s in stmts:
+        if isinstance(s, ast.Assign) and len(s.targets) == 1 and isinstance(s.targets[0], ast.Tuple) and isinstance(s.value, ast.Tuple) \
+                and len(s.targets[0].elts) == len(s.value.elts) and all(isinstance(t, ast.Name) for t in s.targets[0].elts):
+            tn = [t.id for t in s.targets[0].elts]
+            used = {n.id for v in s.value.elts for n in ast.walk(v) if isinstance(n, ast.Name)}
+            if not (set(tn) & used):
+                for t, v in zip(s.targets[0].elts, s.value.elts):
+                    out.append(ast.copy_location(ast.Assign(targets=[t], value=v, lineno=s.lineno), s))
+                continue
+        out.append(s)
+    return out
